@@ -444,3 +444,27 @@ Qed.
    single spaces lex to the same tokens - so only the token sequence matters to the parser *)
 Theorem lex_normalise f s ts : lex f s = Some ts -> lex (S (length (render ts))) (render ts) = Some ts.
 Proof. intro H. apply lex_render. eapply lex_tokens_lexable; eassumption. Qed.
+
+(* any amount of further whitespace (spaces, tabs, line breaks) after the separating space is irrelevant too *)
+Definition render_with (l : list (token * bytes)) : bytes := flat_map (fun tw => tok_text (fst tw) ++ sp :: snd tw) l.
+
+Lemma dw_ws_app w R : forallb is_gws w = true -> drop_while is_gws (w ++ R) = drop_while is_gws R.
+Proof. induction w as [|c w IH]; intro H; [reflexivity|]. cbn in *. apply andb_true_iff in H as [Hc Hw]. rewrite Hc. apply IH. assumption. Qed.
+
+Lemma lex_skip_ws f w R : forallb is_gws w = true -> lex f (w ++ R) = lex f R.
+Proof. intro H. destruct f; [reflexivity|]. cbn [lex]. rewrite dw_ws_app by assumption. reflexivity. Qed.
+
+Theorem lex_any_layout l : Forall (fun tw => lexable (fst tw) /\ forallb is_gws (snd tw) = true) l ->
+  lex (S (length (render_with l))) (render_with l) = Some (map fst l).
+Proof.
+  induction 1 as [|[t w] l [(s & r0 & Hl) Hw] _ IH]; [reflexivity|].
+  cbn [render_with flat_map fst snd map]. fold (render_with l). rewrite <- app_assoc. cbn [app].
+  pose proof (relex_one s t r0 (w ++ render_with l) Hl) as Hre.
+  destruct (tok_text t ++ sp :: w ++ render_with l) as [|c rest] eqn:Et; [cbn in Hre; discriminate|].
+  pose proof (lex_one_head_nonws _ _ _ _ Hre) as Hc.
+  cbn [lex drop_while]. rewrite Hc, Hre. rewrite lex_skip_sp. rewrite lex_skip_ws by assumption.
+  rewrite (lex_fuel_irrelevant (length (c :: rest)) (S (length (render_with l))) (render_with l)).
+  - rewrite IH. reflexivity.
+  - rewrite <- Et. rewrite !app_length. cbn [length]. rewrite app_length. lia.
+  - lia.
+Qed.
